@@ -15,6 +15,9 @@ pub enum IoErrKind {
 	UnexpectedEof,
 	BrokenPipe,
 	StorageFull,
+	/// what a non-blocking or timed-out descriptor reports: NOT `Interrupted` — nothing in std retries it
+	WouldBlock,
+	TimedOut,
 }
 impl IoErrKind {
 	pub fn to_error(self) -> io::Error {
@@ -24,6 +27,8 @@ impl IoErrKind {
 			IoErrKind::UnexpectedEof => io::ErrorKind::UnexpectedEof,
 			IoErrKind::BrokenPipe => io::ErrorKind::BrokenPipe,
 			IoErrKind::StorageFull => io::ErrorKind::StorageFull,
+			IoErrKind::WouldBlock => io::ErrorKind::WouldBlock,
+			IoErrKind::TimedOut => io::ErrorKind::TimedOut,
 		};
 		io::Error::new(kind, "simulated I/O fault")
 	}
